@@ -46,6 +46,38 @@ type canonIn struct {
 	Known   [][]int   `json:"known"` // full: automorphisms of g known by construction (a[v] = image of v)
 }
 
+type wbEv struct {
+	T string `json:"t"`
+	A int    `json:"a"`
+	B int    `json:"b"`
+	S []int  `json:"s"`
+	U []int  `json:"u"`
+}
+
+// canonWB records the search-tree events of one call through the verif hook (sequential: the tracer is a package variable).
+func canonWB(in canonIn) tr.E {
+	pi := in.Pi
+	if len(pi) != in.G.N {
+		pi = identity(in.G.N)
+	}
+	evs := []wbEv{}
+	perm := []int{}
+	res := obs.Safe(func() {
+		h := graphOfJ(in.Rep, in.G).InducedSubgraph(pi)
+		graph.VerifCanonTracer = func(ev string, a, b int, s, t []int) {
+			if len(evs) < 4000 {
+				evs = append(evs, wbEv{T: ev, A: a, B: b, S: cp(s), U: cp(t)})
+			}
+		}
+		defer func() { graph.VerifCanonTracer = nil }()
+		perm = cp(graph.CanonicalIsomorph(h))
+	})
+	if len(evs) >= 4000 {
+		res = "HARNESS: more search events than the recorder keeps"
+	}
+	return tr.E{"ev": "CanonWB", "g": in.G, "pi": pi, "rep": in.Rep, "evs": evs, "perm": perm, "res": res}
+}
+
 func (in canonIn) key() string {
 	e := fmt.Sprint(in.G.E)
 	if len(e) > 90 {
@@ -65,6 +97,8 @@ func (in canonIn) key() string {
 			s += fmt.Sprintf(",classes=%v", in.Classes)
 		}
 		return s
+	case "wb":
+		return fmt.Sprintf("WB[%s](n=%d,e=%s,pi=%v,%s)", in.Name, in.G.N, e, in.Pi, in.Rep)
 	case "full":
 		return fmt.Sprintf("Full[%s](n=%d,e=%s,pi=%v,classes=%v,%s)", in.Name, in.G.N, e, in.Pi, in.Classes, in.Rep)
 	}
@@ -478,6 +512,28 @@ func canonGrid(c *Ctx, prop string) []canonIn {
 				add(canonIn{Kind: "sum", Name: nm, G: g, Samples: hs, Seed: c.Seed + 11})
 			}
 		}
+		// white box: the search-tree events of single calls (hook), judged against Canon.tla's rules by CanonTrace.JudgeWB
+		for n := 2; n <= 6; n++ {
+			for _, gj := range classReps(n) {
+				add(canonIn{Kind: "wb", Name: fmt.Sprintf("class%d", n), G: gj, Pi: r.Perm(n), Rep: "dense"})
+			}
+		}
+		nwb7, nwb8 := 150, 40
+		if big {
+			nwb7, nwb8 = 1044, 400
+		}
+		c7, c8 := classReps(7), classReps(8)
+		for i := 0; i < nwb7; i++ {
+			add(canonIn{Kind: "wb", Name: "class7", G: c7[(i*7+int(c.Seed))%len(c7)], Pi: r.Perm(7), Rep: []string{"dense", "sparse"}[i%2]})
+		}
+		for i := 0; i < nwb8; i++ {
+			add(canonIn{Kind: "wb", Name: "class8", G: c8[r.Intn(len(c8))], Pi: r.Perm(8), Rep: "dense"})
+		}
+		for _, nm := range []string{"G|WW}K", "GhcqSK", "cube3", "2xc4", "k44", "k222", "3xk3", "p4+p4", "rook33"} {
+			for t := 0; t < 6; t++ {
+				add(canonIn{Kind: "wb", Name: nm, G: hard[nm], Pi: r.Perm(hard[nm].N), Rep: "dense"})
+			}
+		}
 		for _, n := range []int{25, 40, 60} { // sizes that reach the merge sort / quicksort paths
 			for _, p := range []float64{0.1, 0.5, 0.9} {
 				add(canonIn{Kind: "sum", Name: "gnp", G: randGraphJ(r, n, p), Samples: 20, Seed: c.Seed + int64(n)})
@@ -689,7 +745,7 @@ func driveCanon(c *Ctx, prop string) {
 	var wg sync.WaitGroup
 	sem := make(chan struct{}, runtime.NumCPU())
 	for i, in := range grid {
-		if in.Kind == "reuse" {
+		if in.Kind == "reuse" || in.Kind == "wb" {
 			continue
 		}
 		wg.Add(1)
@@ -705,6 +761,11 @@ func driveCanon(c *Ctx, prop string) {
 		}(i, in)
 	}
 	wg.Wait()
+	for i, in := range grid { // the tracer hook is a package variable: white-box calls run one at a time, after the parallel sweeps
+		if in.Kind == "wb" {
+			evs[i] = canonWB(in)
+		}
+	}
 	kinds := map[string]int{}
 	rel := 0
 	for i, in := range grid {
